@@ -124,8 +124,15 @@ type vpResult struct {
 
 // nativeReplay runs the cases against the natively compiled repository (with
 // the harness overlay) and returns the results keyed by case id.
+var lastRaceReport string
+
 func nativeReplay(cases []*vpCase) (map[string]*vpResult, error) {
+	return nativeReplayOpt(cases, false)
+}
+
+func nativeReplayOpt(cases []*vpCase, race bool) (map[string]*vpResult, error) {
 	res := map[string]*vpResult{}
+	lastRaceReport = ""
 	if len(cases) == 0 {
 		return res, nil
 	}
@@ -148,10 +155,25 @@ func nativeReplay(cases []*vpCase) (map[string]*vpResult, error) {
 		out := filepath.Join(tmp, fmt.Sprintf("out%d.json", round))
 		b, _ := json.Marshal(remaining)
 		os.WriteFile(in, b, 0o644)
-		cmd := exec.Command("go", "test", "-mod=readonly", "-vet=off", "-count=1", "-run", "^TestVPReplay$", "-timeout", "30m", "-overlay", ovf, ".")
+		argv := []string{"test", "-mod=readonly", "-vet=off", "-count=1", "-run", "^TestVPReplay$", "-timeout", "30m", "-overlay", ovf}
+		if race {
+			argv = append(argv, "-race")
+		}
+		argv = append(argv, ".")
+		cmd := exec.Command("go", argv...)
 		cmd.Dir = repoDir
 		cmd.Env = append(os.Environ(), "VP_REPLAY_IN="+in, "VP_REPLAY_OUT="+out, "GOFLAGS=", "GOPROXY=off", "GOSUMDB=off", "GOTOOLCHAIN=local", "GOWORK=off")
 		outb, rerr := cmd.CombinedOutput()
+		if race && strings.Contains(string(outb), "DATA RACE") {
+			rep := string(outb)
+			if i := strings.Index(rep, "WARNING: DATA RACE"); i >= 0 {
+				rep = rep[i:]
+			}
+			if len(rep) > 3000 {
+				rep = rep[:3000]
+			}
+			lastRaceReport = rep
+		}
 		data, err := os.ReadFile(out)
 		if err != nil {
 			return nil, fmt.Errorf("native replay failed: %v\n%s", rerr, string(outb))
@@ -257,7 +279,7 @@ func runHarness(p *interp.Program, h HarnessRun, tier string, workers int, out *
 		params = h.Thorough
 	}
 	cfg := interp.Config{Harness: h.Harness, Params: params, Workers: workers, SampleEvery: h.SampleEvery, Monitor: h.Monitor,
-		ReinitPkgs: []string{"github.com/aundis/formula"}, StepBudget: h.StepBudget}
+		ReinitPkgs: []string{"github.com/aundis/formula"}, StepBudget: h.StepBudget, MaxPaths: h.MaxPaths, Timeout: time.Duration(h.TimeoutS) * time.Second}
 	if cfg.SampleEvery == 0 {
 		cfg.SampleEvery = 97
 	}
@@ -459,12 +481,13 @@ func cmdCheck(args []string) int {
 			cases = append(cases, v.Case)
 		}
 		cases = append(cases, out.samples...)
-		res, err := nativeReplay(cases)
+		res, err := nativeReplayOpt(cases, chk.Race)
 		if err != nil {
 			fmt.Fprintln(os.Stderr, "native replay failed:", err)
 			writeEvidenceFailure(chk, *tier, seed, time.Since(t0), "native replay failed: "+err.Error())
 			return 3
 		}
+		raceReport := lastRaceReport
 		for _, v := range out.violations {
 			r := res[v.Case.ID]
 			ok := false
@@ -475,6 +498,11 @@ func cmdCheck(args []string) int {
 						if e == "A:"+v.Label+":false" {
 							ok = true
 						}
+					}
+					// a shared write found by the engine is confirmed by the race detector
+					if !ok && chk.Race && strings.HasSuffix(v.Label, "no-shared-write") && raceReport != "" {
+						ok = true
+						v.Detail += " | go test -race: " + strings.SplitN(raceReport, "\n\n", 2)[0]
 					}
 				case "panic":
 					ok = r.Panic != ""
@@ -599,6 +627,10 @@ func equalStrings(a, b []string) bool {
 	}
 	for i := range a {
 		if a[i] != b[i] {
+			// the symbolic side could not evaluate a term (uninterpreted function): any native value matches
+			if strings.HasSuffix(b[i], ":?") && strings.HasPrefix(a[i], strings.TrimSuffix(b[i], "?")) {
+				continue
+			}
 			return false
 		}
 	}
@@ -698,6 +730,7 @@ func cmdExplore(args []string) int {
 	params := map[string]int{}
 	workers := 0
 	sample := 0
+	maxPaths, timeoutS := 0, 0
 	for _, a := range args[1:] {
 		kv := strings.SplitN(a, "=", 2)
 		if len(kv) != 2 {
@@ -705,6 +738,10 @@ func cmdExplore(args []string) int {
 		}
 		n, _ := strconv.Atoi(kv[1])
 		switch kv[0] {
+		case "maxpaths":
+			maxPaths = n
+		case "timeout":
+			timeoutS = n
 		case "workers":
 			workers = n
 		case "sample":
@@ -723,7 +760,7 @@ func cmdExplore(args []string) int {
 		return 3
 	}
 	out := &checkOutput{funcs: map[string]int{}}
-	h := HarnessRun{Harness: args[0], Quick: params, SampleEvery: sample}
+	h := HarnessRun{Harness: args[0], Quick: params, SampleEvery: sample, MaxPaths: maxPaths, TimeoutS: timeoutS}
 	if err := runHarness(p, h, "quick", workers, out); err != nil {
 		fmt.Fprintln(os.Stderr, err)
 		return 3
@@ -731,8 +768,14 @@ func cmdExplore(args []string) int {
 	s := out.summaries[0]
 	b, _ := json.MarshalIndent(s.Asserts, "", " ")
 	fmt.Println(string(b))
-	for i, v := range out.violations {
-		if i < 8 {
+	seen := map[string]int{}
+	for _, v := range out.violations {
+		key := v.Label + "|" + v.Detail
+		if len(key) > 120 {
+			key = key[:120]
+		}
+		seen[key]++
+		if seen[key] <= 2 && len(seen) < 40 {
 			fmt.Printf("  candidate: %s %s %s %s\n", v.Label, v.Kind, renderValues(v.Case.Values), v.Detail)
 		}
 	}
